@@ -51,7 +51,7 @@ func (p C10Payload) bytes(file string) []byte {
 
 var c10Words = []string{"cat", "grep", "tail", "map", ".ack", "health", "timeout", "frobnicate", "", "CAT", "cat:", ":", "cat::", ".syn"}
 var c10Opts = []string{"", "", ":quiet=true", ":plain=true:quiet=true", ":k", ":k=", ":=v", ":=", ":base64%!!!", ":x=base64%", ":x=base64%QUJD", ":max=99999999999999999999",
-	":before=-5:after=x", ":max=1", ":before=3:after=3:max=2", ":serverless=true", ":before=70000", ":max=-1", ":after=9223372036854775807", ":quiet", ":::", ":a=b=c"}
+	":before=-5:after=x", ":max=1", ":before=3:after=3:max=2", ":serverless=true", ":before=70000", ":before=4611686018427387904", ":before=2000000:max=1", ":max=-1", ":after=9223372036854775807", ":quiet", ":::", ":a=b=c"}
 var c10Args = []string{"", "x", "FILE", "FILE", "/nonexistent", "/", "/etc", "regex:noop", "regex:default", "regex:invert x", "regex:default [", "regex:default (((", "regex:bogus y",
 	"regex", "regex:", "regex:default,invert,noop z", "close", "connection", "close connection", "5", "-1", "*", "../../..", "\x00", "é", "%s%s%s%n", "regex:default \\", "regex:invert (?P<"}
 var c10Queries = []string{"", "select", "select x", "select count(x) from", "select `", "select ``", "select ` x", "select count($line) from STATS group by",
